@@ -2,10 +2,11 @@
 """second-round adversary prompt: same as round 1 plus the list of code sites already used (to avoid duplicates)"""
 import glob, json, subprocess, sys
 pid, wt, n = sys.argv[1], sys.argv[2], sys.argv[3]
+first = int(sys.argv[4]) if len(sys.argv) > 4 else 4
 base = subprocess.run(['/verif/tools/mkmutprompt.py', pid, wt, n], capture_output=True, text=True).stdout
 sites = [json.load(open(f)).get('site', '') + ' - ' + json.load(open(f)).get('summary', '')[:140] for f in sorted(glob.glob(f'/verif/seeded/{pid}_*/meta.json'))]
 extra = ('\nALREADY TAKEN (an earlier adversary produced these; yours must differ in code site AND in the kind of input/history needed):\n'
          + '\n'.join(' - ' + s for s in sites)
-         + f'\nName your output directories {pid}_4, {pid}_5, {pid}_6 (k = 4..6).\n'
+         + f'\nName your output directories {pid}_{first}, {pid}_{first+1}, {pid}_{first+2} (k = {first}..{first+2}).\n'
          + 'Prefer changes that need a multi-step history, an interaction of two features, a configuration (backend lxml vs ElementTree, XSD version, parser version, compatibility mode) or a rarely combined input class.\n')
 print(base.replace('Final message:', extra + 'Final message:'))
